@@ -201,7 +201,7 @@ func run(t *testing.T, c Case) (v engine.Verdict) {
 					return json.RawMessage{}, nil
 				case "baderrdata":
 					// an error whose data are not valid JSON: still an error response, same code
-					return nil, &jrpc2.Error{Code: 7, Message: "m", Data: json.RawMessage(`{"a":`)}
+					return nil, &jrpc2.Error{Code: 7, Message: "m: 50% of /a%20b", Data: json.RawMessage(`{"a":`)}
 				}
 				return nil, herr
 			}
@@ -253,8 +253,8 @@ func run(t *testing.T, c Case) (v engine.Verdict) {
 		if !errors.As(cerr, &je) {
 			return engine.Failf("C14/unmarshalable-result-not-an-error", "handler returned an unmarshalable %s, the client got %T %v (want an *Error response)", c.BadResult, cerr, cerr)
 		}
-		if c.BadResult == "baderrdata" && je.Code != 7 {
-			return engine.Failf("C14/errorcode-lost", "handler returned *Error{Code: 7} with data that are not JSON, the client got code %d (%v)", je.Code, je)
+		if c.BadResult == "baderrdata" && (je.Code != 7 || je.Message != "m: 50% of /a%20b") {
+			return engine.Failf("C14/error-fields", "handler returned *Error{Code: 7, Message: %q} with data that are not JSON, the client got code %d message %q", "m: 50% of /a%20b", je.Code, je.Message)
 		}
 		return engine.Verdict{NonTrivial: true, Labels: []string{"bad-result:" + c.BadResult}}
 	}
